@@ -129,7 +129,50 @@ func routeNames(dialect string) []string {
 	if dialect == "mysql" {
 		routes = append(routes, "explicit-using-btree", "inline-keys", "table-level-pk", "inline-keys-using-btree")
 	}
+	if dialect == "postgres" {
+		routes = append(routes, "alter-column-type")
+	}
 	return routes
+}
+
+// identifiers the postgres parser prints back with quotes (Spec.Scope.pgQuoted)
+func pgQuotedName(n string) bool {
+	switch n {
+	case "select", "order", "group", "desc", "index", "user", "table", "column":
+		return true
+	}
+	return false
+}
+
+// another type of the same family (the change an ALTER COLUMN … TYPE usually makes), or any other type
+func pgSibling(t string) string {
+	switch t {
+	case "INT8":
+		return "INT4"
+	case "INT4":
+		return "INT2"
+	case "INT2":
+		return "INT8"
+	case "VARCHAR(64)":
+		return "VARCHAR(128)"
+	case "VARCHAR(128)":
+		return "STRING"
+	case "STRING":
+		return "VARCHAR(64)"
+	case "DECIMAL(10,2)":
+		return "DECIMAL(12,4)"
+	case "DECIMAL(12,4)":
+		return "DECIMAL(10,2)"
+	case "FLOAT8":
+		return "DECIMAL(10,2)"
+	case "BOOL":
+		return "INT2"
+	case "DATE":
+		return "TIMESTAMP"
+	case "TIMESTAMP":
+		return "DATE"
+	}
+	return t
 }
 
 // runRoutes (C03): one schema loaded by two different routes must diff to nothing; fixed = "" picks the two routes at random
@@ -192,6 +235,28 @@ func runRoutesFixed(c *ctx, id string, cfg runCfg, s *gSchema, fix1, fix2 string
 				}
 				return "ok"
 			})
+		case "alter-column-type": // postgres: every column whose names the parser does not quote is created with another
+			// type and brought to its type by ALTER COLUMN … TYPE (seeded change C03-h)
+			p := s.clone()
+			var alters []Stmt
+			for _, t := range p.Tables {
+				if pgQuotedName(t.Name) {
+					continue
+				}
+				for k := range t.Cols {
+					if pgQuotedName(t.Cols[k].Name) {
+						continue
+					}
+					want := t.Cols[k].Typ
+					other := pgSibling(want)
+					if other == want {
+						continue
+					}
+					t.Cols[k].Typ = other
+					alters = append(alters, Stmt{Kind: "alterType", T: t.Name, A: t.Cols[k].Name, B: want})
+				}
+			}
+			e = load(z, cfg, plain, append(p.scriptGrouped(), alters...))
 		case "inline-keys":
 			e = guard(func() string {
 				if err := z.FromString(plain.scriptInlineKeys(s.scriptGrouped())); err != nil {
@@ -242,6 +307,14 @@ func suitePair(c *ctx) {
 					k++
 				}
 			}
+		}
+		// postgres, an option-free schema (inside the reader's fragment): written directly and through ALTER COLUMN … TYPE
+		// within the type family (C03-h)
+		pws := &gSchema{Tables: []*gTable{
+			{Name: "account", Cols: []ColDef{{Name: "id", Typ: "INT8"}, {Name: "label", Typ: "VARCHAR(64)"}, {Name: "amount", Typ: "DECIMAL(12,4)"}, {Name: "note", Typ: "STRING"}}},
+			{Name: "audit", Cols: []ColDef{{Name: "n", Typ: "INT4"}, {Name: "at", Typ: "TIMESTAMP"}}}}}
+		for i, pr := range [][2]string{{"grouped", "alter-column-type"}, {"alter-column-type", "grouped"}, {"per-statement", "alter-column-type"}, {"alter-column-type", "random-spelling"}} {
+			runRoutesFixed(c, fmt.Sprintf("wrtpg%d", i), runCfg{dialect: "postgres", lower: i%2 == 0}, pws, pr[0], pr[1])
 		}
 	}
 	for i := 0; i < n; i++ {
